@@ -185,12 +185,26 @@ func SymRange(eco string, r *rand.Rand, version func() string) string {
 	if len(sy) == 0 {
 		return ">=" + version()
 	}
+	sym := func() string { return sy[r.IntN(len(sy))] }
 	one := func() string {
-		s := sy[r.IntN(len(sy))]
-		if r.IntN(4) == 0 {
-			s += " "
+		s := sym()
+		v := version()
+		switch k := r.IntN(20); {
+		case k < 9: // prefix operator
+			if r.IntN(4) == 0 {
+				s += " "
+			}
+			return s + v
+		case k < 12: // suffix marker (1.2*, 1.2+)
+			return v + s
+		case k < 17: // circumfix of two literals (=1.2*, [1.2])
+			return s + v + sym()
+		default: // one multi-character literal split around the version ("=*" -> =1.2*)
+			if len(s) >= 2 {
+				return s[:1] + v + s[1:]
+			}
+			return s + v + s
 		}
-		return s + version()
 	}
 	switch r.IntN(4) {
 	case 0:
